@@ -76,13 +76,16 @@ type HostSpec struct {
 
 // Step is one reconciliation.
 type Step struct {
-	Full     bool                `json:"full,omitempty"` // full sync: Config().Clear(), everything re-created
-	Backs    []BackSpec          `json:"backs,omitempty"`
-	DelBacks []string            `json:"del_backs,omitempty"`
-	Hosts    []HostSpec          `json:"hosts,omitempty"`
-	DelHosts []string            `json:"del_hosts,omitempty"`
-	MaxConn  int                 `json:"maxconn,omitempty"` // != 0: global change
-	Faults   []fakehaproxy.Fault `json:"faults,omitempty"`
+	Full     bool       `json:"full,omitempty"` // full sync: Config().Clear(), everything re-created
+	Backs    []BackSpec `json:"backs,omitempty"`
+	DelBacks []string   `json:"del_backs,omitempty"`
+	Hosts    []HostSpec `json:"hosts,omitempty"`
+	DelHosts []string   `json:"del_hosts,omitempty"`
+	MaxConn  int        `json:"maxconn,omitempty"` // != 0: global change
+	// DefBack: "" keeps the default backend, "-" unsets it, else the id of the backend that becomes
+	// the default one (Backends().DefaultBackend, what syncDefaultBackend does)
+	DefBack string              `json:"def_back,omitempty"`
+	Faults  []fakehaproxy.Fault `json:"faults,omitempty"`
 }
 
 // Input is a whole history; Steps[0] builds the initial configuration.
@@ -172,19 +175,20 @@ type HostObs struct {
 
 // StepObs is what one HAProxyUpdate did.
 type StepObs struct {
-	Err        string    `json:"err,omitempty"`
-	Panic      string    `json:"panic,omitempty"`
-	Reloads    int       `json:"reloads"`
-	Metric     string    `json:"metric"` // noop | dynamic | full (which IncUpdate* was called)
-	Committed  bool      `json:"committed"`
-	Backs      []BackObs `json:"backs,omitempty"`
-	Hosts      []HostObs `json:"hosts,omitempty"`
-	GlobalDiff bool      `json:"global_diff,omitempty"`
-	AddedBack  bool      `json:"added_back,omitempty"`
-	HostSet    bool      `json:"host_set,omitempty"` // a host was added or removed
-	Commands   int       `json:"commands"`
-	Lost       int       `json:"lost"`
-	FaultsHit  int       `json:"faults_hit"`
+	Err         string    `json:"err,omitempty"`
+	Panic       string    `json:"panic,omitempty"`
+	Reloads     int       `json:"reloads"`
+	Metric      string    `json:"metric"` // noop | dynamic | full (which IncUpdate* was called)
+	Committed   bool      `json:"committed"`
+	Backs       []BackObs `json:"backs,omitempty"`
+	Hosts       []HostObs `json:"hosts,omitempty"`
+	GlobalDiff  bool      `json:"global_diff,omitempty"`
+	DefaultDiff bool      `json:"default_diff,omitempty"` // the default backend is not the one of the last commit
+	AddedBack   bool      `json:"added_back,omitempty"`
+	HostSet     bool      `json:"host_set,omitempty"` // a host was added or removed
+	Commands    int       `json:"commands"`
+	Lost        int       `json:"lost"`
+	FaultsHit   int       `json:"faults_hit"`
 	// Diff: running process vs files on disk after the step ("" = equal)
 	Diff string `json:"diff,omitempty"`
 	// AllBacks: every backend of Items() after the step (for the slot invariants of C11)
@@ -240,6 +244,8 @@ type World struct {
 	backs   map[string]BackSpec
 	hosts   map[string]HostSpec
 	maxconn int
+	defBack string // desired default backend id
+	defLast string // default backend id at the last commit
 	nstep   int
 	dumper  spew.ConfigState
 }
@@ -656,6 +662,19 @@ func (w *World) Apply(st *Step) (obs *StepObs) {
 			}
 		}
 	}
+	// the default backend (the converter sets it again whenever that backend is re-created)
+	if st.DefBack == "-" {
+		w.defBack = ""
+	} else if st.DefBack != "" {
+		w.defBack = st.DefBack
+	}
+	cfg.Backends().DefaultBackend = cfg.Backends().Items()[w.defBack]
+	cur := ""
+	if cfg.Backends().DefaultBackend != nil {
+		cur = w.defBack
+	}
+	obs.DefaultDiff = !first && cur != w.defLast
+	w.defLast = cur
 	for _, t := range btr {
 		t.obs.ID = t.id
 		t.obs.New = t.old == nil
